@@ -35,6 +35,10 @@ RULE = ('SQLite database files with one table t of 1-4 columns declared '
         'non-null value and >=1 perturbation applied; distinct by case '
         'hash.')
 RULE += ' ' + 'Also: column names with %, {}, ?, [], $ and implementation-like names (columns, fields, cache, rows, types, name, count ...); in most cases the database file first holds a decoy table with the same column names and rotated declared types that is discovered and verified, then is deleted and recreated; 1 case in 60 is a constructed table of 1100 / 4200 distinct strings whose extremes sort last, or of 501 / 620 / 733 differently shaped strings (as many expressions); 28-row tables with 21-28 differently shaped strings.'
+RULE += (' A third of the cases run the whole history through ONE long-lived '
+         'library connection on a WAL-mode database while the rows are added '
+         'and removed by other connections; column names that differ only '
+         'in the case of a non-ASCII letter.')
 ASSUMPTIONS = ['NaN reals, fractional-second datetimes, table names needing '
                'quotes and column names containing a double quote are not '
                'generated (outside what the SQLite support documents)']
@@ -291,13 +295,32 @@ def run(case, ctx):
                 S.verify(path, tdda_path)
         out.label('history:database-file-recreated')
     S.create_db(desc, path)
+    held = None
+    if (len(desc['cols']) + desc['n']) % 3 == 0:
+        # one long-lived library connection for the whole history, on a
+        # database in WAL mode (readers do not block writers); the rows are
+        # added and removed by other connections
+        con = sqlite3.connect(path)
+        con.execute('PRAGMA journal_mode=WAL')
+        con.close()
+        held = S.connect(path)
+        out.label('history:one-long-lived-connection-wal')
+    try:
+        return run_history(case, ctx, out, desc, path, tdda_path, held)
+    finally:
+        if held is not None:
+            held.connection.close()
+
+
+def run_history(case, ctx, out, desc, path, tdda_path, held):
     out.label('rex' if case['inc_rex'] else 'norex',
               'rows:%s' % ('0' if desc['n'] == 0 else '1+'))
     if desc['n'] > 1000:
         out.label('more-than-1000-distinct-values')
     for c in desc['cols']:
         out.label('decl:' + c['decl'].lower())
-    ok, cons = S.discover(desc, ctx, inc_rex=case['inc_rex'], path=path)
+    ok, cons = S.discover(desc, ctx, inc_rex=case['inc_rex'], path=path,
+                          db=held)
     if not ok:
         out.violate('discovery-never-raises', cons.bucket(), cons.detail())
         return out
@@ -313,7 +336,7 @@ def run(case, ctx):
     fields = json.loads(text)['fields']
 
     def closure(tag):
-        ok, v = S.verify(path, tdda_path)
+        ok, v = S.verify(path, tdda_path, db=held)
         if not ok:
             out.violate('verification-never-raises', v.bucket(),
                         '%s: %s' % (tag, v.detail()))
@@ -361,7 +384,7 @@ def run(case, ctx):
             con.close()
             applied += 1
             out.label('perturb:' + kind)
-            ok, v = S.verify(path, tdda_path)
+            ok, v = S.verify(path, tdda_path, db=held)
             if not ok:
                 out.violate('verification-never-raises', v.bucket(),
                             'after adding a row breaking %s of %r: %s'
